@@ -4763,7 +4763,7 @@ func (stmt *SelectStmt) genScanSpecs(tx *SQLTx, params map[string]interface{}) (
 		// history and diff sources are served by the primary index only: do not pick
 		// a secondary index for the ORDER BY just to reject it below
 		if !tableRef.history && !tableRef.diff {
-			sortingIndex = stmt.selectSortingIndex(groupByCols, orderByCols, table, rangesByColID)
+			sortingIndex = stmt.selectSortingIndex(groupByCols, orderByCols, table, rangesByColID, tableRef.Alias())
 		}
 	} else {
 		sortingIndex = preferredIndex
@@ -4792,11 +4792,11 @@ func (stmt *SelectStmt) genScanSpecs(tx *SQLTx, params map[string]interface{}) (
 	}
 
 	var descOrder bool
-	if len(groupByCols) > 0 && sortingIndex.coversOrdCols(groupByCols, rangesByColID) {
+	if len(groupByCols) > 0 && sortingIndex.coversOrdCols(groupByCols, rangesByColID, tableRef.Alias()) {
 		groupByCols = nil
 	}
 
-	if len(groupByCols) == 0 && len(orderByCols) > 0 && sortingIndex.coversOrdCols(orderByCols, rangesByColID) {
+	if len(groupByCols) == 0 && len(orderByCols) > 0 && sortingIndex.coversOrdCols(orderByCols, rangesByColID, tableRef.Alias()) {
 		descOrder = orderByCols[0].descOrder
 		orderByCols = nil
 	}
@@ -4827,7 +4827,7 @@ func (stmt *SelectStmt) genScanSpecs(tx *SQLTx, params map[string]interface{}) (
 	}, nil
 }
 
-func (stmt *SelectStmt) selectSortingIndex(groupByCols, orderByCols []*OrdExp, table *Table, rangesByColId map[uint32]*typedValueRange) *Index {
+func (stmt *SelectStmt) selectSortingIndex(groupByCols, orderByCols []*OrdExp, table *Table, rangesByColId map[uint32]*typedValueRange, tableAlias string) *Index {
 	sortCols := groupByCols
 	if len(sortCols) == 0 {
 		sortCols = orderByCols
@@ -4838,7 +4838,7 @@ func (stmt *SelectStmt) selectSortingIndex(groupByCols, orderByCols []*OrdExp, t
 	}
 
 	for _, idx := range table.indexes {
-		if idx.coversOrdCols(sortCols, rangesByColId) {
+		if idx.coversOrdCols(sortCols, rangesByColId, tableAlias) {
 			return idx
 		}
 	}
